@@ -21,9 +21,14 @@
    (head = tip), hm = highest height processed since then.  [wf_batch]: a batch reverts the
    top blocks of C (with their own content) and the resulting chain is [linked] (parent
    pointers, consecutive heights, unique block ids).  Nothing is assumed about which contract
-   events the blocks carry. *)
+   events the blocks carry.
+
+   WP-E2: the reachable states now include the per-block RejectContracts step (pending rows negotiated
+   more than the reject buffer below the applied block become rejected; a formation confirmed later
+   makes such a row active: every [reach] theorem covers rejected-then-confirmed contracts), blocks
+   with several changes of one contract, and changes of the reject buffer ([Configure]). *)
 From HostdBase Require Import Base.
-From HostdElements Require Import Model Proofs ProofsTotal ProofsSel.
+From HostdElements Require Import Model Proofs ProofsTotal ProofsRev ProofsRescan ProofsSel ProofsE2.
 
 (* every well-formed operation list run through the model's [step] ends in a [reach]able state *)
 Theorem c17_histories : forall l, wf_ops init [] l ->
@@ -66,9 +71,12 @@ Print Assumptions c17_formation_reverted_element_dropped.
 (* the update never panics or fails — in particular the revert order (revert contracts, delete the
    reverted block's chain index element, only then refresh every remaining proof) never hands core
    a leaf the reverted block created — for every history that obeys the contract lifecycle
-   ([lifecycle_ok]: a contract is formed once, revised/resolved only while active, at most one
-   event per contract and block; contracts are added before their formation is processed).
-   [lreach] is [reach] without resets, restricted to such histories. *)
+   ([lifecycle_ok]: a contract is formed once, revised/resolved only while active; per contract and
+   block exactly the combinations consensus admits ([shape2]: created | revised | resolved | revised
+   AND resolved — one V2FileContractElementDiff with Revision and Resolution set, e.g. a revision and
+   a renewal in different transactions of the block); contracts are added before their formation is
+   processed).  [lreach] is [reach] restricted to such histories, where a reset is followed by the
+   rescan of the processed chain (c17_rescan_restores_elements). *)
 Theorem c17_update_never_fails : forall s C rs bs, lreach s C -> wf_batch C rs bs ->
   lifecycle_ok (chain_after C rs bs) -> exists s', batch s rs bs = Ok s'.
 Proof. exact batch_never_fails. Qed.
@@ -89,16 +97,17 @@ Print Assumptions c17_reset.
 Example c17_nonvacuous :
   reach (runs init wit_ops1) [wb2; wb1; wb0] 2 /\
   snd (step (runs init wit_ops1) Observe) =
-    OState [(1%N, true, 2%N)] [(ix 0 1, true); (ix 1 2, true); (ix 2 3, true)] (Some (ix 2 3)) [] /\
+    OState [(1%N, true, 2%N)] [(ix 0 1, true); (ix 1 2, true); (ix 2 3, true)] (Some (ix 2 3)) [] [(1%N, SActive)] /\
   reach (runs init wit_ops) [wb1'; wb0] 2 /\
-  snd (step (runs init wit_ops) Observe) = OState [] [(ix 0 1, true); (ix 1 4, true)] (Some (ix 1 4)) [].
+  snd (step (runs init wit_ops) Observe) =
+    OState [] [(ix 0 1, true); (ix 1 4, true)] (Some (ix 1 4)) [] [(1%N, SUnconfirmed)].
 Proof. exact nonvacuous_witness. Qed.
 
 (** * Which rows the refresh touches; renewals negotiated but not (yet) confirmed *)
 
 (* RenewV2Contract is no chain event: element tables and tip marker are untouched *)
-Theorem c17_renewal_negotiation_leaves_elements : forall s c r,
-  let s' := fst (step s (Renew c r)) in celems s' = celems s /\ ielems s' = ielems s /\ tip s' = tip s.
+Theorem c17_renewal_negotiation_leaves_elements : forall s c r ng,
+  let s' := fst (step s (Renew c r ng)) in celems s' = celems s /\ ielems s' = ielems s /\ tip s' = tip s.
 Proof. exact renew_fields. Qed.
 Print Assumptions c17_renewal_negotiation_leaves_elements.
 
@@ -139,10 +148,10 @@ Theorem c17_selection_narrowed_on_renewed_to_refuted :
   wf_ops init [] ren_ops1 /\
   alookup 1%N (contracts (runs_g sel_not_renewed init ren_ops1)) = Some SActive /\
   snd (step_g sel_not_renewed (runs_g sel_not_renewed init ren_ops1) Observe) =
-    OState [(1%N, false, 0%N)] [(ix 0 1, true); (ix 1 2, true); (ix 2 5, true)] (Some (ix 2 5)) [(1%N, 2%N)] /\
+    OState [(1%N, false, 0%N)] [(ix 0 1, true); (ix 1 2, true); (ix 2 5, true)] (Some (ix 2 5)) [(1%N, 2%N)] [(1%N, SActive); (2%N, SUnconfirmed)] /\
   snd (step_g sel_not_renewed (runs_g sel_not_renewed init ren_ops3) Observe) =
     OState [(1%N, false, 0%N)] [(ix 0 1, true); (ix 1 2, true); (ix 2 5, true); (ix 3 7, true); (ix 4 8, true)]
-           (Some (ix 4 8)) [(1%N, 2%N)] /\
+           (Some (ix 4 8)) [(1%N, 2%N)] [(1%N, SActive); (2%N, SUnconfirmed)] /\
   alookup 1%N (contracts (runs_g sel_not_renewed init ren_ops3)) = Some SActive.
 Proof. exact narrowed_on_renewed_to_refuted. Qed.
 Print Assumptions c17_selection_narrowed_on_renewed_to_refuted.
@@ -154,13 +163,15 @@ Theorem c17_selection_narrowed_on_resolution_refuted :
   alookup 1%N (contracts (runs_g sel_unresolved init ren_ops3)) = Some SActive /\
   snd (step_g sel_unresolved (runs_g sel_unresolved init ren_ops3) Observe) =
     OState [(1%N, false, 0%N)] [(ix 0 1, true); (ix 1 2, true); (ix 2 5, true); (ix 3 7, true); (ix 4 8, true)]
-           (Some (ix 4 8)) [(1%N, 2%N)].
+           (Some (ix 4 8)) [(1%N, 2%N)] [(1%N, SActive); (2%N, SUnconfirmed)].
 Proof. exact narrowed_on_resolution_refuted. Qed.
 Print Assumptions c17_selection_narrowed_on_resolution_refuted.
 
-(* elements are dropped exactly when the property allows: on lifecycle histories a contract of
-   the host whose formation is on the processed chain has a stored element (the converse of
-   c17_formation_reverted_element_dropped; a reset drops all of them, c17_reset) *)
+(* elements are dropped exactly when the property allows: on lifecycle histories — blocks with a
+   revision and a resolution of one contract, rejected-then-confirmed contracts, and resets followed
+   by the rescan of the processed chain included — a contract of the host whose formation is on the
+   processed chain has a stored element (the converse of c17_formation_reverted_element_dropped; a
+   reset alone drops all of them, c17_reset) *)
 Theorem c17_confirmed_contract_has_element : forall s C c, lreach s C -> known s c = true ->
   (exists b, In b C /\ formed_in c b) -> exists e, In e (celems s) /\ ce_cid e = c.
 Proof. exact confirmed_contract_has_element. Qed.
@@ -172,16 +183,105 @@ Print Assumptions c17_confirmed_contract_has_element.
 Example c17_renewal_nonvacuous :
   reach (runs init ren_ops1) [rb2; wb1; wb0] 2 /\
   snd (step (runs init ren_ops1) Observe) =
-    OState [(1%N, true, 0%N)] [(ix 0 1, true); (ix 1 2, true); (ix 2 5, true)] (Some (ix 2 5)) [(1%N, 2%N)] /\
+    OState [(1%N, true, 0%N)] [(ix 0 1, true); (ix 1 2, true); (ix 2 5, true)] (Some (ix 2 5)) [(1%N, 2%N)] [(1%N, SActive); (2%N, SUnconfirmed)] /\
   alookup 1%N (contracts (runs init ren_ops1)) = Some SActive /\
   reach (runs init ren_ops2) [rb3; rb2; wb1; wb0] 3 /\
   snd (step (runs init ren_ops2) Observe) =
     OState [(1%N, true, 0%N); (2%N, true, 0%N)] [(ix 0 1, true); (ix 1 2, true); (ix 2 5, true); (ix 3 6, true)]
-           (Some (ix 3 6)) [(1%N, 2%N)] /\
+           (Some (ix 3 6)) [(1%N, 2%N)] [(1%N, SRenewed); (2%N, SActive)] /\
   alookup 1%N (contracts (runs init ren_ops2)) = Some SRenewed /\
   reach (runs init ren_ops3) [rb4'; rb3'; rb2; wb1; wb0] 4 /\
   snd (step (runs init ren_ops3) Observe) =
     OState [(1%N, true, 0%N)] [(ix 0 1, true); (ix 1 2, true); (ix 2 5, true); (ix 3 7, true); (ix 4 8, true)]
-           (Some (ix 4 8)) [(1%N, 2%N)] /\
+           (Some (ix 4 8)) [(1%N, 2%N)] [(1%N, SActive); (2%N, SUnconfirmed)] /\
   alookup 1%N (contracts (runs init ren_ops3)) = Some SActive.
 Proof. exact renewal_witness. Qed.
+
+(** * WP-E2: rescans, contract rows, blocks with several changes of one contract *)
+
+(* ResetChainState followed by the rescan of the chain that had been processed, in ANY batch split
+   (concat bss = the chain, bottom up): no batch fails or panics (every formation and resolution meets
+   a row that already carries it: "skipping rescan state transition"), the state it ends in is again
+   a lifecycle history of that chain — so c17_update_never_fails and
+   c17_confirmed_contract_has_element go on holding — and it knows the same contracts.  (A reset
+   followed by a different chain, or a reorg below the rescan position, is NOT covered: the rows keep
+   the statuses of the old chain — C01 known finding rescan-onto-different-chain-keeps-old-chain-state.) *)
+Theorem c17_rescan_never_fails : forall s C bss, lreach s C -> concat bss = rev C ->
+  exists s', run_applies (reset s) bss = Ok s' /\ lreach s' C /\ forall c, known s' c = known s c.
+Proof. exact rescan_never_fails. Qed.
+Print Assumptions c17_rescan_never_fails.
+
+(* ... in particular every confirmed contract regains its element *)
+Theorem c17_rescan_restores_elements : forall s C bss s' c, lreach s C -> concat bss = rev C ->
+  run_applies (reset s) bss = Ok s' -> known s c = true -> (exists b, In b C /\ formed_in c b) ->
+  exists e, In e (celems s') /\ ce_cid e = c.
+Proof. exact rescan_restores_elements. Qed.
+Print Assumptions c17_rescan_restores_elements.
+
+(* the contract rows follow the processed chain ([cstat]: pending until the formation is on it, active
+   until the resolution, then what the resolution says — with a revision and a resolution of one block
+   both taken), except that a row the chain leaves pending may be rejected *)
+Theorem c17_status_follows_chain : forall s C c st, lreach s C -> alookup c (contracts s) = Some st ->
+  st = cstat C c \/ (st = SRejected /\ cstat C c = SUnconfirmed).
+Proof. exact status_follows_chain. Qed.
+Print Assumptions c17_status_follows_chain.
+
+(* REFUTED (known finding reorg-below-rescan-position-panics, directed case 12 on the real node): the
+   full statement would be "every well-formed batch on a lifecycle-conforming chain succeeds in every
+   state a rescan passes through".  It fails when a reorg reaches below the position of a rescan in
+   progress: contract 1 formed in block 1 and resolved in block 2; ResetChainState; blocks 0 and 1
+   processed again (row still "successful"); a batch that replaces block 1 panics in
+   revertV2ContractFormation.  What holds: c17_update_never_fails for [lreach] states, which a rescan
+   reaches once it has processed the whole chain again (c17_rescan_never_fails). *)
+Theorem c17_reorg_below_rescan_position_refuted :
+  lreach (runs init rr_ops) [rr2; wb1; wb0] /\
+  exists s1, run_applies (reset (runs init rr_ops)) [[wb0; wb1]] = Ok s1 /\
+    alookup 1%N (contracts s1) = Some SSuccessful /\
+    wf_batch [wb1; wb0] [wb1] [wb1'] /\ lifecycle_ok (chain_after [wb1; wb0] [wb1] [wb1']) /\
+    batch s1 [wb1] [wb1'] = Panic.
+Proof. exact reorg_below_rescan_position_refuted. Qed.
+Print Assumptions c17_reorg_below_rescan_position_refuted.
+
+(* WHICH contract the stored element carries: on lifecycle histories its revision number is the
+   confirmed revision number of the processed chain ([crevn]: the created contract's, then the last
+   revision's; the "old" number of a revision is the chain's, [revs_consistent] in [lifecycle_ok]) *)
+Theorem c17_stored_contract_is_chain_revision : forall s C e, lreach s C -> In e (celems s) ->
+  ce_rev e = crevn C (ce_cid e).
+Proof. exact (fun s C e R => lreach_rev s C R e). Qed.
+Print Assumptions c17_stored_contract_is_chain_revision.
+
+(* ... so for a block b that revises (o -> n) AND resolves contract c: while b is the processed tip's
+   chain the store keeps the REVISED contract (n) and the row has the resolution; once b is
+   disconnected (chain C) the store keeps the contract as it was BEFORE the block (o) and the row is
+   active — with the two theorems above and c17_basis_is_processed_tip_partial: each with a proof for
+   the processed tip *)
+Theorem c17_same_block_revision_and_resolution : forall C b c o n k, lifecycle_ok (b :: C) ->
+  evs_of c (grouped (b_events b)) = [ERevised c o n; EResolved c k] ->
+  crevn (b :: C) c = n /\ cstat (b :: C) c = kstatus k /\ crevn C c = o /\ cstat C c = SActive.
+Proof. exact same_block_chain. Qed.
+Print Assumptions c17_same_block_revision_and_resolution.
+
+(* non-vacuity of the lifecycle hypotheses with the new shapes: block (2,5) revises contract 1 (0 -> 3)
+   AND renews it: the store keeps the revised contract with a proof for the tip, row renewed; the
+   block is reorged out: the store holds the contract as before the block (revision 0) with a proof
+   for the new tip, row active again, the renewal's element dropped; contract 3 is rejected at height 3
+   (reject buffer 2) and confirmed at height 4: active, with its element; ResetChainState and the same
+   chain again in two batches: the same observation *)
+Example c17_e2_nonvacuous :
+  lreach (runs init e2_ops1) [sb2; wb1; wb0] /\
+  snd (step (runs init e2_ops1) Observe) =
+    OState [(1%N, true, 3%N); (2%N, true, 0%N)] [(ix 0 1, true); (ix 1 2, true); (ix 2 5, true)] (Some (ix 2 5))
+           [(1%N, 2%N)] [(1%N, SRenewed); (2%N, SActive); (3%N, SUnconfirmed)] /\
+  lreach (runs init e2_ops2) [sb3'; sb2'; wb1; wb0] /\
+  snd (step (runs init e2_ops2) Observe) =
+    OState [(1%N, true, 0%N)] [(ix 0 1, true); (ix 1 2, true); (ix 2 6, true); (ix 3 7, true)] (Some (ix 3 7))
+           [(1%N, 2%N)] [(1%N, SActive); (2%N, SUnconfirmed); (3%N, SRejected)] /\
+  lreach (runs init e2_ops3) [sb4'; sb3'; sb2'; wb1; wb0] /\
+  snd (step (runs init e2_ops3) Observe) =
+    OState [(1%N, true, 0%N); (3%N, true, 0%N)]
+           [(ix 0 1, true); (ix 1 2, true); (ix 2 6, true); (ix 3 7, true); (ix 4 8, true)] (Some (ix 4 8))
+           [(1%N, 2%N)] [(1%N, SActive); (2%N, SRejected); (3%N, SActive)] /\
+  concat e2_scan = rev [sb4'; sb3'; sb2'; wb1; wb0] /\
+  exists s', run_applies (reset (runs init e2_ops3)) e2_scan = Ok s' /\
+    snd (step s' Observe) = snd (step (runs init e2_ops3) Observe).
+Proof. exact e2_witness. Qed.
